@@ -6,6 +6,14 @@ use crate::fill::{sel, Ctor, Fill, Op};
 use crate::util::{rd16, rd32, W};
 use acpi_tables::{pptt, rhct, rimt, viot};
 
+/// 2-bit sub-element count code -> count: 0, 1, 2, and a LARGE count that pushes the entry past 255 bytes
+pub fn cnt(code: u16, large: u16) -> u16 {
+    if code == 3 {
+        large
+    } else {
+        code
+    }
+}
 fn parse_handle(dbg: String) -> u32 {
     let s: String = dbg.chars().filter(|c| c.is_ascii_digit()).collect();
     s.parse().unwrap_or(u32::MAX)
@@ -24,35 +32,29 @@ pub fn proc_shape(nres: u16, parent_sel: u16, res_sel: u16, opts: u16) -> u16 {
 pub fn cache_shape(setmask: u16, next_sel: u16) -> u16 {
     setmask | (next_sel << 8)
 }
+/// bit 11 of a cache shape: apply the setters in descending instead of ascending order (the result must not depend on it)
+pub const CACHE_REVERSED: u16 = 1 << 11;
 pub fn real_cache(f: &Fill, setmask: u16, next: Option<&pptt::CacheHandle>) -> pptt::CacheNode {
     use pptt::{AllocationType as A, CacheType as C, WritePolicy as P};
     let mut b = pptt::CacheNodeBuilder::default();
     if let Some(h) = next {
         b = b.next_level(h);
     }
-    if setmask & 1 != 0 {
-        b = b.size(f.u32(0));
-    }
-    if setmask & 2 != 0 {
-        b = b.sets(f.u32(1));
-    }
-    if setmask & 4 != 0 {
-        b = b.associativity(f.u8(2));
-    }
-    if setmask & 8 != 0 {
-        b = b.allocation_type([A::Read, A::Write, A::Both][f.e(3, 3)]);
-    }
-    if setmask & 16 != 0 {
-        b = b.cache_type([C::Data, C::Instruction, C::Unified][f.e(4, 3)]);
-    }
-    if setmask & 32 != 0 {
-        b = b.write_policy([P::Writeback, P::Writethrough][f.e(5, 2)]);
-    }
-    if setmask & 64 != 0 {
-        b = b.line_size(f.u16(6));
-    }
-    if setmask & 128 != 0 {
-        b = b.id(f.u32(7));
+    let order: Vec<u16> = if setmask & CACHE_REVERSED != 0 { (0..8).rev().collect() } else { (0..8).collect() };
+    for bit in order {
+        if setmask & (1 << bit) == 0 {
+            continue;
+        }
+        b = match bit {
+            0 => b.size(f.u32(0)),
+            1 => b.sets(f.u32(1)),
+            2 => b.associativity(f.u8(2)),
+            3 => b.allocation_type([A::Read, A::Write, A::Both][f.e(3, 3)]),
+            4 => b.cache_type([C::Data, C::Instruction, C::Unified][f.e(4, 3)]),
+            5 => b.write_policy([P::Writeback, P::Writethrough][f.e(5, 2)]),
+            6 => b.line_size(f.u16(6)),
+            _ => b.id(f.u32(7)),
+        };
     }
     b.to_node()
 }
@@ -139,6 +141,9 @@ impl Table for Pptt {
                 }
             }
         }
+        if nc > 0 && !hist.iter().any(|o| o.k == P_PROC && o.shape & 3 == 3) {
+            v.push(Op::new(P_PROC, proc_shape(3, 0, 7, 0x1f), fl[0])); // 58 private resources: a 252-byte node
+        }
         // caches: no next level / next level = first or latest cache
         let mut nexts = vec![0u16];
         if nc > 0 {
@@ -149,7 +154,7 @@ impl Table for Pptt {
         }
         for (n, ns) in nexts.iter().enumerate() {
             let f = fl[n % fl.len()];
-            v.push(Op::new(P_CACHE, cache_shape(if n % 2 == 0 { 0xff } else { 0 }, *ns), f));
+            v.push(Op::new(P_CACHE, cache_shape(if n % 2 == 0 { 0xff } else { 0 }, *ns) | if n == 0 { CACHE_REVERSED } else { 0 }, f));
         }
         if hist.iter().filter(|o| o.k == P_CACHE_DEFAULT).count() < 1 {
             v.push(Op::new(P_CACHE_DEFAULT, 0, 0));
@@ -172,7 +177,7 @@ impl Table for Pptt {
             let f = &op.fill;
             let s = op.shape;
             if op.k == P_PROC {
-                let (nres, psel, rsel, opts) = (s & 3, (s >> 2) & 7, (s >> 5) & 7, (s >> 8) & 31);
+                let (nres, psel, rsel, opts) = (cnt(s & 3, 58), (s >> 2) & 7, (s >> 5) & 7, (s >> 8) & 31);
                 let parent = if psel == 0 { None } else { Some(&ph[sel(psel - 1, ph.len())]) };
                 let mut p = pptt::ProcessorNode::new(parent, f.u32(0));
                 for r in 0..nres {
@@ -189,7 +194,7 @@ impl Table for Pptt {
             } else {
                 let (mask, nsel) = (s & 0xff, (s >> 8) & 7);
                 let next = if nsel == 0 { None } else { Some(&ch[sel(nsel - 1, ch.len())]) };
-                let h = t.add_cache(real_cache(f, mask, next));
+                let h = t.add_cache(real_cache(f, mask | (s & CACHE_REVERSED), next));
                 seen.push(parse_handle(format!("{:?}", h)));
                 ch.push(h);
             }
@@ -210,7 +215,7 @@ impl Table for Pptt {
             if op.k == P_PROC {
                 // type 0, length, reserved(2), flags(4), parent(4), ACPI processor id(4), n private resources(4), resources
                 // flags: bit0 physical package, 1 ACPI id valid, 2 thread, 3 leaf, 4 identical implementation
-                let (nres, psel, rsel, opts) = (s & 3, (s >> 2) & 7, (s >> 5) & 7, (s >> 8) & 31);
+                let (nres, psel, rsel, opts) = (cnt(s & 3, 58), (s >> 2) & 7, (s >> 5) & 7, (s >> 8) & 31);
                 let parent = if psel == 0 { 0 } else { out.ents[ph[sel(psel - 1, ph.len())]].off as u32 };
                 w.u8(0).u8(20 + 4 * nres as u8).u16(0).u32(opts as u32).u32(parent).u32(f.u32(0)).u32(nres as u32);
                 if psel != 0 {
@@ -277,11 +282,11 @@ impl Table for Pptt {
     }
     fn shapes(&self, k: u8) -> Vec<u16> {
         if k == P_PROC {
-            vec![proc_shape(0, 0, 0, 0), proc_shape(0, 0, 0, 0x1f), proc_shape(1, 1, 0, 0x15), proc_shape(2, 1, 0, 0x0a)]
+            vec![proc_shape(0, 0, 0, 0), proc_shape(0, 0, 0, 0x1f), proc_shape(1, 1, 0, 0x15), proc_shape(2, 1, 0, 0x0a), proc_shape(3, 1, 0, 0x1f)]
         } else if k == P_CACHE_DEFAULT {
             vec![0]
         } else {
-            vec![cache_shape(0xff, 0), cache_shape(0, 0), cache_shape(0xff, 1), cache_shape(0x55, 1), cache_shape(0xaa, 0)]
+            vec![cache_shape(0xff, 0), cache_shape(0xff, 0) | CACHE_REVERSED, cache_shape(0, 0), cache_shape(0xff, 1), cache_shape(0x55, 1), cache_shape(0xaa, 0), cache_shape(0x38, 0) | CACHE_REVERSED]
         }
     }
     fn prelude(&self, _k: u8, _shape: u16) -> Vec<Op> {
@@ -295,7 +300,7 @@ pub const R_ISA: u8 = 0;
 pub const R_MMU: u8 = 1;
 pub const R_CMO: u8 = 2;
 pub const R_HART: u8 = 3;
-pub const ISA_STRINGS: [&str; 8] = ["rv64i", "rv64im", "", "r\u{e9}", "rv64imafdc_zicbom_zicboz_sstc", "rv64imafdch_zicbom_zicboz_sstc", "rv\0", "rv6"];
+pub const ISA_STRINGS: [&str; 8] = ["rv64i", "rv64im", "", "r\u{e9}", "rv64imafdc_zicbom_zicboz_sstc", "rv64imafdch_zx00_zx01_zx02_zx03_zx04_zx05_zx06_zx07_zx08_zx09_zx10_zx11_zx12_zx13_zx14_zx15_zx16_zx17_zx18_zx19_zx20_zx21_zx22_zx23_zx24_zx25_zx26_zx27_zx28_zx29_zx30_zx31_zx32_zx33_zx34_zx35_zx36_zx37_zx38_zx39_zx40_zx41_zx42_zx43_zx44_zx45_zx46_zx47_zx48_zx49_zx50_zx51_zx52_zx53_zx54_zx55_zx56_zx57_zx58_zx59", "rv\0", "rv6"];
 pub fn hart_shape(isa_sel: u16, ncmo: u16, cmo_sel: u16) -> u16 {
     isa_sel | (ncmo << 3) | (cmo_sel << 5)
 }
@@ -326,7 +331,7 @@ impl Table for Rhct {
             return v;
         }
         let fl = fills(level);
-        let nstr = if level == 1 { 4 } else { 8 };
+        let nstr = if level == 1 { 6 } else { 8 };
         for s in 0..nstr {
             v.push(Op::new(R_ISA, s, 2));
         }
@@ -337,9 +342,12 @@ impl Table for Rhct {
         if ni > 0 {
             let isels: Vec<u16> = if ni > 1 { vec![0, 7] } else { vec![0] };
             for (n, is) in isels.iter().enumerate() {
-                for ncmo in 0..=2u16 {
+                for ncmo in 0..=3u16 {
                     if ncmo > 0 && nc == 0 {
                         continue;
+                    }
+                    if ncmo == 3 && (n > 0 || hist.iter().any(|o| o.k == R_HART && (o.shape >> 3) & 3 == 3)) {
+                        continue; // one 296-byte hart-info node per history is enough
                     }
                     let csels: Vec<u16> = if ncmo > 0 && nc > 1 { vec![0, 7] } else { vec![0] };
                     for cs in csels {
@@ -375,7 +383,7 @@ impl Table for Rhct {
                 }
                 _ => {
                     let s = op.shape;
-                    let (isel, ncmo, csel) = (s & 7, (s >> 3) & 3, (s >> 5) & 7);
+                    let (isel, ncmo, csel) = (s & 7, cnt((s >> 3) & 3, 70), (s >> 5) & 7);
                     let mut h = rhct::HartInfoNode::new(f.u32(0), &ih[sel(isel, ih.len())]);
                     for r in 0..ncmo {
                         h = h.with_cmo(&chs[sel(csel, chs.len()).wrapping_add(r as usize) % chs.len()]);
@@ -432,7 +440,7 @@ impl Table for Rhct {
                 _ => {
                     // type 65535, length, revision 1, number of offsets(2), ACPI processor UID(4), offsets(4 each)
                     let s = op.shape;
-                    let (isel, ncmo, csel) = (s & 7, (s >> 3) & 3, (s >> 5) & 7);
+                    let (isel, ncmo, csel) = (s & 7, cnt((s >> 3) & 3, 70), (s >> 5) & 7);
                     let n = 1 + ncmo as usize;
                     w.u16(0xffff).u16((12 + 4 * n) as u16).u16(1).u16(n as u16).u32(f.u32(0));
                     let tgt = ih[sel(isel, ih.len())];
@@ -517,7 +525,7 @@ impl Table for Rhct {
     fn shapes(&self, k: u8) -> Vec<u16> {
         match k {
             R_ISA => (0..8).collect(),
-            R_HART => vec![hart_shape(0, 0, 0), hart_shape(0, 1, 0), hart_shape(0, 2, 0)],
+            R_HART => vec![hart_shape(0, 0, 0), hart_shape(0, 1, 0), hart_shape(0, 2, 0), hart_shape(0, 3, 0)],
             _ => vec![0],
         }
     }
@@ -554,7 +562,7 @@ pub struct Rimt;
 pub const I_IOMMU: u8 = 0;
 pub const I_RC: u8 = 1;
 pub const I_PLAT: u8 = 2;
-pub const PLAT_NAMES: [&str; 4] = ["ACPI0001", "D\u{e9}v\u{fc}", "A\0", ""];
+pub const PLAT_NAMES: [&str; 5] = ["ACPI0001", "D\u{e9}v\u{fc}", "A\0", "", "\\_SB_.DV00.DV01.DV02.DV03.DV04.DV05.DV06.DV07.DV08.DV09.DV10.DV11.DV12.DV13.DV14.DV15.DV16.DV17.DV18.DV19.DV20.DV21.DV22.DV23.DV24.DV25.DV26.DV27.DV28.DV29.DV30.DV31.DV32.DV33.DV34.DV35.DV36.DV37.DV38.DV39.DV40.DV41.DV42.DV43.DV44.DV45.DV46.DV47.DV48.DV49.DV50.DV51.DV52.DV53.DV54.DV55.DV56.DV57.DV58.DV59"];
 pub fn iommu_shape(nw: u16, wires_some: bool, base: bool, pci: bool, prox: bool) -> u16 {
     nw | (wires_some as u16) << 2 | (base as u16) << 3 | (pci as u16) << 4 | (prox as u16) << 5
 }
@@ -562,25 +570,25 @@ pub fn map_shape(nm: u16, some: bool, selv: u16, name: u16) -> u16 {
     nm | (some as u16) << 2 | (selv << 3) | (name << 6)
 }
 fn real_maps(f: &Fill, base: u8, shape: u16, hs: &[rimt::IommuOffset]) -> Option<Vec<rimt::IdMapping>> {
-    let (nm, some, sv) = (shape & 3, shape & 4 != 0, (shape >> 3) & 7);
+    let (nm, some, sv) = (cnt(shape & 3, 13), shape & 4 != 0, (shape >> 3) & 7);
     if !some {
         return None;
     }
     let mut v = vec![];
     for m in 0..nm {
-        let b = base + 6 * m as u8;
+        let b = base + 6 * (m % 4) as u8;
         let h = hs[sel(sv, hs.len()).wrapping_add(m as usize) % hs.len()];
         v.push(rimt::IdMapping::new(f.u32(b), f.u32(b + 1), f.u32(b + 2), h, f.bool(b + 3), f.bool(b + 4), f.bool(b + 5)));
     }
     Some(v)
 }
 fn ref_maps(w: &mut W, out: &mut RefOut, f: &Fill, base: u8, shape: u16, hs: &[usize]) {
-    let (nm, some, sv) = (shape & 3, shape & 4 != 0, (shape >> 3) & 7);
+    let (nm, some, sv) = (cnt(shape & 3, 13), shape & 4 != 0, (shape >> 3) & 7);
     if !some {
         return;
     }
     for m in 0..nm {
-        let b = base + 6 * m as u8;
+        let b = base + 6 * (m % 4) as u8;
         let tgt = hs[sel(sv, hs.len()).wrapping_add(m as usize) % hs.len()];
         // source id base, destination id base, number of ids, destination IOMMU offset, flags (bit0 ATS, 1 PRI, 2 RCiEP)
         w.u32(f.u32(b)).u32(f.u32(b + 1)).u32(f.u32(b + 2));
@@ -624,6 +632,14 @@ impl Table for Rimt {
         for (n, s) in isa.iter().enumerate() {
             v.push(Op::new(I_IOMMU, iommu_shape(s.0, s.1, s.2, s.3, s.4), fl[n % fl.len()]));
         }
+        if !hist.iter().any(|o| o.shape & 3 == 3 || (o.k == I_PLAT && (o.shape >> 6) & 7 == 4)) {
+            // entries longer than 255 bytes: 30 wires, 13 mappings, a 300-character name
+            v.push(Op::new(I_IOMMU, iommu_shape(3, true, true, true, true), fl[0]));
+            v.push(Op::new(I_PLAT, map_shape(0, true, 0, 4), fl[0]));
+            if nh > 0 {
+                v.push(Op::new(I_RC, map_shape(3, true, 7, 0), fl[0]));
+            }
+        }
         for k in [I_RC, I_PLAT] {
             let names: Vec<u16> = if k == I_PLAT { if level == 1 { vec![1, 2] } else { vec![0, 1, 2, 3] } } else { vec![0] };
             for (n, name) in names.iter().enumerate() {
@@ -649,9 +665,9 @@ impl Table for Rimt {
             let s = op.shape;
             match op.k {
                 I_IOMMU => {
-                    let (nw, ws, bs, ps, xs) = (s & 3, s & 4 != 0, s & 8 != 0, s & 16 != 0, s & 32 != 0);
+                    let (nw, ws, bs, ps, xs) = (cnt(s & 3, 30), s & 4 != 0, s & 8 != 0, s & 16 != 0, s & 32 != 0);
                     let wires = if ws {
-                        Some((0..nw).map(|w| { let b = 7 + 4 * w as u8; rimt::InterruptWire::new(f.u32(b), f.bool(b + 1), f.bool(b + 2), f.u16(b + 3)) }).collect())
+                        Some((0..nw).map(|w| { let b = 7 + 4 * (w % 4) as u8; rimt::InterruptWire::new(f.u32(b), f.bool(b + 1), f.bool(b + 2), f.u16(b + 3)) }).collect())
                     } else {
                         None
                     };
@@ -665,7 +681,7 @@ impl Table for Rimt {
                 }
                 _ => {
                     let maps = real_maps(f, 1, s, &hs);
-                    t.add_platform(rimt::Platform::new(f.u16(0), PLAT_NAMES[((s >> 6) & 3) as usize].to_string(), maps));
+                    t.add_platform(rimt::Platform::new(f.u16(0), PLAT_NAMES[((s >> 6) & 7) as usize % PLAT_NAMES.len()].to_string(), maps));
                 }
             }
             obs(i + 1, &t, &[]);
@@ -685,7 +701,7 @@ impl Table for Rimt {
             let ei = out.ents.len();
             match op.k {
                 I_IOMMU => {
-                    let (nw, ws, bs, ps, xs) = (s & 3, s & 4 != 0, s & 8 != 0, s & 16 != 0, s & 32 != 0);
+                    let (nw, ws, bs, ps, xs) = (cnt(s & 3, 30), s & 4 != 0, s & 8 != 0, s & 16 != 0, s & 32 != 0);
                     let nw = if ws { nw } else { 0 };
                     // type 0, revision 1, length(2), id(2), model(2)=0, base(8), flags(4: bit0 PCI, bit1 PXM valid),
                     // segment(2), BDF(2), proximity domain(4), n wires(2), wire array offset(2)=32, wires(8 each)
@@ -694,7 +710,7 @@ impl Table for Rimt {
                     let bdf = ((f.u8(3) as u16) << 8) | ((f.e(4, 32) as u16) << 3) | f.e(5, 8) as u16;
                     w.u16(if ps { f.u16(2) } else { 0 }).u16(if ps { bdf } else { 0 }).u32(if xs { f.u32(6) } else { 0 }).u16(nw).u16(32);
                     for wi in 0..nw {
-                        let b = 7 + 4 * wi as u8;
+                        let b = 7 + 4 * (wi % 4) as u8;
                         // interrupt number(4), flags(2: bit0 level, bit1 active high), APLIC id(2)
                         w.u32(f.u32(b)).u16(f.bool(b + 1) as u16 | (f.bool(b + 2) as u16) << 1).u16(f.u16(b + 3));
                     }
@@ -704,7 +720,7 @@ impl Table for Rimt {
                     out.ents.push(Ent { off: o, ty: 0, len: w.len() - o });
                 }
                 I_RC => {
-                    let nm = if s & 4 != 0 { s & 3 } else { 0 };
+                    let nm = if s & 4 != 0 { cnt(s & 3, 13) } else { 0 };
                     // type 1, revision 1, length(2), id(2), segment(2), flags(4: bit0 ATS, bit1 PRI), map offset(2)=16, n maps(2)
                     w.u8(1).u8(1).u16(16 + 20 * nm).u16(f.u16(0)).u16(f.u16(1)).u32(f.bool(2) as u32 | (f.bool(3) as u32) << 1).u16(16).u16(nm);
                     out.ents.push(Ent { off: o, ty: 1, len: 0 });
@@ -712,8 +728,8 @@ impl Table for Rimt {
                     out.ents[ei].len = w.len() - o;
                 }
                 _ => {
-                    let nm = if s & 4 != 0 { s & 3 } else { 0 };
-                    let name = PLAT_NAMES[((s >> 6) & 3) as usize].as_bytes();
+                    let nm = if s & 4 != 0 { cnt(s & 3, 13) } else { 0 };
+                    let name = PLAT_NAMES[((s >> 6) & 7) as usize % PLAT_NAMES.len()].as_bytes();
                     // type 2, revision 1, length(2), id(2), reserved(2), map offset(2)=12+name+NUL, n maps(2), name, NUL, maps
                     let mo = 12 + name.len() + 1;
                     w.u8(2).u8(1).u16((mo + 20 * nm as usize) as u16).u16(f.u16(0)).u16(0).u16(mo as u16).u16(nm).b(name).u8(0);
@@ -797,14 +813,14 @@ impl Table for Rimt {
     fn fields(&self, k: u8, s: u16) -> Vec<FT> {
         use FT::*;
         let maps = |v: &mut Vec<FT>| {
-            for _ in 0..(s & 3) {
+            for _ in 0..cnt(s & 3, 4) {
                 v.extend([U(32), U(32), U(32), B, B, B]);
             }
         };
         match k {
             I_IOMMU => {
                 let mut v = vec![U(16), U(64), U(16), U(8), E(32), E(8), U(32)];
-                for _ in 0..(s & 3) {
+                for _ in 0..cnt(s & 3, 4) {
                     v.extend([U(32), B, B, U(16)]);
                 }
                 v
@@ -829,15 +845,17 @@ impl Table for Rimt {
                     v.push(iommu_shape(m % 3, true, m & 1 != 0, m & 2 != 0, m & 4 != 0));
                 }
                 v.push(iommu_shape(0, false, true, true, true));
+                v.push(iommu_shape(3, true, true, true, true));
                 v
             }
-            I_RC => vec![map_shape(0, false, 0, 0), map_shape(0, true, 0, 0), map_shape(1, true, 0, 0), map_shape(2, true, 0, 0)],
+            I_RC => vec![map_shape(0, false, 0, 0), map_shape(0, true, 0, 0), map_shape(1, true, 0, 0), map_shape(2, true, 0, 0), map_shape(3, true, 0, 0)],
             _ => {
                 let mut v = vec![];
-                for name in 0..4 {
+                for name in 0..5 {
                     v.push(map_shape(0, false, 0, name));
                     v.push(map_shape(2, true, 0, name));
                 }
+                v.push(map_shape(3, true, 0, 0));
                 v
             }
         }
